@@ -13,6 +13,7 @@
 # limitations under the License.
 
 
+from copy import copy
 from typing import List
 from typing import Tuple
 
@@ -152,6 +153,8 @@ class PerceptionEvaluationManager(_EvaluationMangerBase):
             **self.filtering_params,
         )
 
+        # NOTE: narrow a shallow copy, the caller's (dataset's) frame must keep all objects
+        frame_ground_truth = copy(frame_ground_truth)
         frame_ground_truth.objects = filter_objects(
             objects=frame_ground_truth.objects,
             is_gt=True,
